@@ -83,6 +83,10 @@ class StdHooks(KernelHooks):
             it.write(b, va, node)
             return None
         if name.startswith('std::is_sorted'):
+            if name.split('<')[0] == 'std::is_sorted' and len(args) == 2:
+                r = KernelHooks.external_call(self, it, name, node, args, this_cell)  # decided for concrete integers only
+                if r is not NotImplemented:
+                    return r
             return NotImplemented
         return KernelHooks.external_call(self, it, name, node, args, this_cell)
 
